@@ -14,6 +14,9 @@ mode `judge` (stateful, one answer per line):
   Q <case> <n> (<path> <id>)*          files generated for the empty string in a *string field -> `ok empty-same` | `fail empty-argument …`
   P <case> <n> (<path> <id>)*          files generated for the hostile value          -> `ok absent` | `ok inside <k>` |
                                                                                         `fail <clause> <path> <pos> <detail>`
+  L <label> <n> (<path> <id>)*         files of a run, remembered (P remembers its files too)            -> `l`
+  R <case> <n> (<path> <id>)*          files of a SECOND run of the same objects in the same process, against the
+                                       remembered ones: canonical token streams / JSON must be equal -> `same` | `differs <path> <pos> <detail>`
 mode `regex`:   <validator> <string>   -> `1` | `0` | `bad-op`   (Lean validator models over the generated regexes)
 mode `lex`:     <content>              -> token stream, for debugging
 mode `print`:   JSON lines of harness/c04/print.go {"flat","http","matches",…} -> JSON: the guards of Model/PrintGuards on the
@@ -72,6 +75,8 @@ structure St where
   contents : Array (Option (String × Bool))            -- id ↦ (text, marked)
   lexed : Array (Option (Except LexErr (List Tok)))     -- id ↦ tokens (for .conf, filled on demand)
   base : List (String × Nat)
+  /-- the files of the last L / P line (for the repeat comparison R) -/
+  last : List (String × Nat) := []
 
 def getText (st : St) (id : Nat) : Option (String × Bool) := (st.contents[id]?).join
 
@@ -157,6 +162,43 @@ def judgeCase (ref : IO.Ref St) (relaxed : Bool) (files : List (String × Nat)) 
   if relaxed then return "ok empty-same"
   if anyMarker then return s!"ok inside {inside}" else return "ok absent"
 
+/-- Statefulness: the files of a second run of the SAME objects in the same process against those of the first run. No
+tolerance for marker-bearing words: the canonical token streams (order normalisation only: NGF iterates over Go maps)
+must be equal, the JSON files structurally equal, the file sets equal. -/
+def repeatCase (ref : IO.Ref St) (files : List (String × Nat)) : IO String := do
+  let st ← ref.get
+  let sortF := fun (fs : List (String × Nat)) => fs.mergeSort (fun a b => a.1 ≤ b.1)
+  let a := sortF st.last
+  let b := sortF files
+  if a.map (·.1) != b.map (·.1) then
+    return s!"differs files 0 first run {a.length} files, second run {b.length}"
+  for ((apath, aid), (_, bid)) in a.zip b do
+    if aid == bid then continue
+    if apath.endsWith ".conf" then
+      let ta ← getToks ref aid
+      let tb ← getToks ref bid
+      match ta, tb with
+      | .ok x, .ok y =>
+        match canon x, canon y with
+        | some cx, some cy =>
+          if cx != cy then
+            let i := ((cx.zip cy).findIdx? (fun p => p.1 != p.2)).getD (min cx.length cy.length)
+            let show_ := fun (l : List Tok) => " ".intercalate (((l.drop (i - 3)).take 8).map tokStr)
+            return s!"differs {apath} {i} first run: … {oneLine (show_ cx)} / second run: … {oneLine (show_ cy)}"
+        | none, none => pure ()
+        | _, _ => return s!"differs {apath} 0 only one of the two runs nests"
+      | .error _, .error _ => pure ()
+      | _, _ => return s!"differs {apath} 0 only one of the two runs is tokenisable"
+    else if apath.endsWith ".json" then
+      let x := (getText st aid).map (·.1) |>.getD ""
+      let y := (getText st bid).map (·.1) |>.getD ""
+      match Lean.Json.parse x, Lean.Json.parse y with
+      | .ok jx, .ok jy => if !(jsonSame jx jy && jsonSame jy jx) then return s!"differs {apath} 0 structure differs"
+      | _, _ => if x != y then return s!"differs {apath} 0 text differs"
+    else
+      return s!"differs {apath} 0 content differs"
+  return "same"
+
 def judgeLine (ref : IO.Ref St) (line : String) : IO String := do
   let fs := line.splitOn "\t"
   match fs with
@@ -185,7 +227,19 @@ def judgeLine (ref : IO.Ref St) (line : String) : IO String := do
   | "P" :: _case :: _n :: rest =>
     match parseFiles rest with
     | none => return "bad-op"
-    | some files => judgeCase ref false files
+    | some files =>
+      ref.modify (fun st => { st with last := files })
+      judgeCase ref false files
+  | "L" :: _label :: _n :: rest =>
+    match parseFiles rest with
+    | none => return "bad-op"
+    | some files =>
+      ref.modify (fun st => { st with last := files })
+      return "l"
+  | "R" :: _case :: _n :: rest =>
+    match parseFiles rest with
+    | none => return "bad-op"
+    | some files => repeatCase ref files
   | "Q" :: _case :: _n :: rest =>
     match parseFiles rest with
     | none => return "bad-op"
